@@ -126,7 +126,15 @@ func DecodePointer(reader io.Reader) (*Pointer, error) {
 // blob's data will be returned, along with a parse error.
 func DecodeFrom(reader io.Reader) (*Pointer, io.Reader, error) {
 	buf := make([]byte, blobSizeCutoff)
-	n, err := reader.Read(buf)
+	// A single Read may return fewer bytes than are available (a pipe that
+	// is written to in several chunks, for instance), so keep reading until
+	// the buffer is full or the input ends. Otherwise a pointer that arrives
+	// in two chunks is taken for content, and content whose first chunk
+	// happens to be a complete pointer is taken for a pointer.
+	n, err := io.ReadFull(reader, buf)
+	if err == io.ErrUnexpectedEOF {
+		err = io.EOF
+	}
 	buf = buf[:n]
 
 	var contents io.Reader = bytes.NewReader(buf)
